@@ -45,20 +45,55 @@ func GenHistory(r *common.Rand, name string, cfg *fedlab.Config, u *fedlab.Unive
 	h.NGroups = len(groups)
 	n := minLen + r.Pick(maxLen-minLen+1)
 	prev := -1
+	next := len(groups) // fresh meaning classes (flipped conditions, operations of a multi-operation document)
+	var multi [2]*Spelled
+	var multiGroup [2]int
 	for len(h.Reqs) < n {
 		switch {
 		case len(h.Reqs) > 0 && r.Chance(1, 4):
 			// exact repeat of an earlier request
 			h.Reqs = append(h.Reqs, h.Reqs[r.Pick(len(h.Reqs))])
 			continue
+		case len(h.Reqs) > 0 && r.Chance(1, 5):
+			// the same text as an earlier request with @skip/@include conditions flipped
+			var cands []*Spelled
+			for _, q := range h.Reqs {
+				if len(q.Sp.BoolVars) > 0 {
+					cands = append(cands, q.Sp)
+				}
+			}
+			if len(cands) > 0 {
+				if f := FlipBools(r, cands[r.Pick(len(cands))]); f != nil {
+					h.Reqs = append(h.Reqs, HReq{Group: next, Sp: f})
+					next++
+					continue
+				}
+			}
+		case r.Chance(1, 7):
+			// one document with two operations, sent under either name
+			if multi[0] == nil {
+				multi[0], multi[1] = MultiOp(r, cfg, u, r.Chance(2, 3))
+				multiGroup[0], multiGroup[1] = next, next+1
+				next += 2
+			}
+			k := r.Pick(2)
+			h.Reqs = append(h.Reqs, HReq{Group: multiGroup[k], Sp: multi[k]})
+			if r.Chance(1, 2) && len(h.Reqs) < n {
+				h.Reqs = append(h.Reqs, HReq{Group: multiGroup[1-k], Sp: multi[1-k]})
+			}
+			continue
 		case prev >= 0 && r.Chance(1, 2):
 			// same meaning, another spelling
 		default:
 			prev = r.Pick(len(groups))
 		}
+		if prev < 0 {
+			prev = r.Pick(len(groups))
+		}
 		st := Styles[r.Pick(len(Styles))]
 		h.Reqs = append(h.Reqs, HReq{Group: prev, Sp: Spell(r, cfg, groups[prev].t, st)})
 	}
+	h.NGroups = next
 	return h
 }
 
